@@ -3,14 +3,17 @@ package clip
 import (
 	"context"
 	"errors"
-	"io"
 	"fmt"
+	"io"
+	"os"
+	"path/filepath"
 	"runtime"
 	"strings"
 	"sync"
-	"time"
 	"sync/atomic"
 	"testing"
+	"time"
+	"verifharness/model"
 
 	"github.com/tailscale/setec/client/setec"
 	"pgregory.net/rapid"
@@ -67,6 +70,9 @@ type UpdaterCase struct {
 	Ops       []UOp `json:"ops"`
 	FailWrite []int `json:"fail_write"` // cache write calls (1-based) that fail; empty = no cache configured
 	Iface     bool  `json:"iface"`      // the updaters are Updater[<interface type>] rather than Updater[*T]
+	// the context given to NewUpdater (it governs the initial lookup, nothing else) ends as soon as
+	// NewUpdater has returned - a start-up helper with a timeout and a deferred cancel
+	CtxEnds bool `json:"ctx_ends,omitempty"`
 }
 
 type upd struct {
@@ -78,12 +84,20 @@ type upd struct {
 	builds  int
 }
 
+// an install or a Get that never returns (a notification that blocks while the store's lock is held,
+// say) cannot be waited for: see h.StuckWatch
+var c15stuck = h.NewStuckWatch("C15", "updater", "no-update-lost-however-many-arrive", "an updater history (polls that install, Updater.Get, NewUpdater)", 60*time.Second)
+
 func runC15(t *testing.T, c UpdaterCase) (*h.Violation, h.Info) {
+	c15stuck.Begin(c)
+	c15stuck.Enter(0)
+	defer c15stuck.Leave(0)
 	var info h.Info
 	svc := fake.NewSvc()
 	svc.Set("w", 1, c15Value(1))
 	svc.Set("o", 1, valueOf("o", 1))
-	cfg := setec.StoreConfig{Client: svc, Secrets: []string{"w", "o"}, PollInterval: -1, Logf: nolog}
+	clock := fake.NewClock(1_700_000_000)
+	cfg := setec.StoreConfig{Client: svc, Secrets: []string{"w", "o"}, PollInterval: -1, Logf: nolog, TimeNow: clock.Now}
 	if len(c.FailWrite) > 0 {
 		cache := fake.NewCache(nil)
 		for _, k := range c.FailWrite {
@@ -141,9 +155,14 @@ func runC15(t *testing.T, c UpdaterCase) (*h.Violation, h.Info) {
 		}
 		var uu updHandle
 		var err error
+		uctx, ucancel := context.WithCancel(context.Background())
+		if c.CtxEnds {
+			defer ucancel() // (ends when mk returns, i.e. right after NewUpdater)
+		}
+		_ = ucancel
 		if c.Iface {
 			var x *setec.Updater[closerIface]
-			x, err = setec.NewUpdater(context.Background(), st, "w", func(b []byte) (closerIface, error) {
+			x, err = setec.NewUpdater(uctx, st, "w", func(b []byte) (closerIface, error) {
 				v, err := builder(b)
 				if err != nil {
 					return nil, err
@@ -153,7 +172,7 @@ func runC15(t *testing.T, c UpdaterCase) (*h.Violation, h.Info) {
 			uu = ifaceUpd{x}
 		} else {
 			var x *setec.Updater[*cval]
-			x, err = setec.NewUpdater(context.Background(), st, "w", builder)
+			x, err = setec.NewUpdater(uctx, st, "w", builder)
 			uu = ptrUpd{x}
 		}
 		if fails[installed] {
@@ -208,6 +227,10 @@ func runC15(t *testing.T, c UpdaterCase) (*h.Violation, h.Info) {
 					info.NonTrivial = true
 				}
 			}
+		case "idle":
+			// nothing happens for a long time (more than a day on the store's clock): no install, no rebuild
+			clock.Advance(25*3600 + 7)
+			info.Class("a-day-of-idleness")
 		case "pollnop":
 			if err := refresh(); err != nil {
 				return h.V("harness", "Refresh: %v", err), info
@@ -350,18 +373,18 @@ func fromOf(c *cval) string {
 
 var c15 = &h.Campaign[UpdaterCase]{
 	Prop: "C15", Sub: "updater",
-	Rule: "rapid: sequences (1-40) over one watched secret: install a new version (service change + Refresh; the builder may be told to reject that version), Get / Err on any updater, create another updater mid-history, a poll that installs nothing, a poll that updates an unrelated secret; values implement io.Closer with a close counter, the updater being Updater[*T] or, one case in three, Updater[<interface type>]; model per updater = pending-install flag + current value; non-trivial = >= 2 installs between two Gets of an updater, or a failed build followed by a successful one; distinct by sequence",
+	Rule:  "rapid: sequences (1-40) over one watched secret: install a new version (service change + Refresh; the builder may be told to reject that version), Get / Err on any updater, create another updater mid-history, a poll that installs nothing, a poll that updates an unrelated secret; values implement io.Closer with a close counter, the updater being Updater[*T] or, one case in three, Updater[<interface type>]; model per updater = pending-install flag + current value; non-trivial = >= 2 installs between two Gets of an updater, or a failed build followed by a successful one; distinct by sequence",
 	Quick: 6000, Thorough: 2000000,
 	Gen: func(rt *rapid.T) UpdaterCase {
 		return UpdaterCase{Ops: rapid.SliceOfN(rapid.Custom(func(rt *rapid.T) UOp {
-			o := UOp{Kind: rapid.SampledFrom([]string{"install", "install", "install", "get", "get", "get", "new", "new-during-install", "new-beside-failing-new", "pollnop", "other", "err"}).Draw(rt, "kind"), U: rapid.IntRange(0, 3).Draw(rt, "u")}
+			o := UOp{Kind: rapid.SampledFrom([]string{"install", "install", "install", "get", "get", "get", "new", "new-during-install", "new-beside-failing-new", "pollnop", "idle", "other", "err"}).Draw(rt, "kind"), U: rapid.IntRange(0, 3).Draw(rt, "u")}
 			if o.Kind == "install" {
 				o.Fail = rapid.IntRange(0, 3).Draw(rt, "fail") == 0
 				o.Back = rapid.IntRange(0, 4).Draw(rt, "back") == 0
 				o.Both = rapid.IntRange(0, 3).Draw(rt, "both") == 0
 			}
 			return o
-		}), h.LenBias(rt, 1, 40), 40).Draw(rt, "ops"), FailWrite: rapid.SampledFrom([][]int{nil, nil, {2}, {2, 3}, {3, 5, 6}, {1, 2, 3, 4, 5, 6, 7, 8, 9}}).Draw(rt, "failwrite"), Iface: rapid.IntRange(0, 2).Draw(rt, "iface") == 0}
+		}), h.LenBias(rt, 1, 40), 40).Draw(rt, "ops"), FailWrite: rapid.SampledFrom([][]int{nil, nil, {2}, {2, 3}, {3, 5, 6}, {1, 2, 3, 4, 5, 6, 7, 8, 9}}).Draw(rt, "failwrite"), Iface: rapid.IntRange(0, 2).Draw(rt, "iface") == 0, CtxEnds: rapid.IntRange(0, 2).Draw(rt, "ctxends") == 0}
 	},
 	Run: runC15,
 }
@@ -490,13 +513,15 @@ func runC15Conc(t *testing.T, c ConcUpdaterCase) (*h.Violation, h.Info) {
 
 var c15conc = &h.Campaign[ConcUpdaterCase]{
 	Prop: "C15", Sub: "concurrent",
-	Rule: "rapid: 2-6 goroutines spinning on Get of 1-3 updaters while 3-40 installs happen, under the race detector; per reader the versions seen never go backwards, a Get that begins after the Refresh installing version v has returned yields a value built from version >= v, the final Get of every updater is built from the last install, every replaced value closed exactly once, no current value closed; non-trivial = rebuilds happened while readers ran; distinct by (getters, installs, updaters) - schedules are sampled",
+	Rule:  "rapid: 2-6 goroutines spinning on Get of 1-3 updaters while 3-40 installs happen, under the race detector; per reader the versions seen never go backwards, a Get that begins after the Refresh installing version v has returned yields a value built from version >= v, the final Get of every updater is built from the last install, every replaced value closed exactly once, no current value closed; non-trivial = rebuilds happened while readers ran; distinct by (getters, installs, updaters) - schedules are sampled",
 	Quick: 400, Thorough: 60000,
 	Gen: func(rt *rapid.T) ConcUpdaterCase {
 		return ConcUpdaterCase{Getters: rapid.IntRange(2, 6).Draw(rt, "getters"), Installs: rapid.IntRange(3, 40).Draw(rt, "installs"), Updaters: rapid.IntRange(1, 3).Draw(rt, "updaters")}
 	},
 	Run: runC15Conc,
-	Key: func(c ConcUpdaterCase) any { return fmt.Sprintf("%d/%d/%d/%d", c.Getters, c.Installs, c.Updaters, nonce.Add(1)) },
+	Key: func(c ConcUpdaterCase) any {
+		return fmt.Sprintf("%d/%d/%d/%d", c.Getters, c.Installs, c.Updaters, nonce.Add(1))
+	},
 }
 
 var nonce, slow atomic.Int64
@@ -505,3 +530,76 @@ func init() { c15.Register(); c15conc.Register() }
 
 func TestC15Updater(t *testing.T)        { c15.Check(t) }
 func TestC15RaceConcurrent(t *testing.T) { c15conc.Check(t) }
+
+// ---- C15 over the file-backed client ---------------------------------------------------------------
+//
+// A program that reads its secrets from a file (no service) still has a Store with a cache: after
+// the file was replaced and the program restarted, the cache holds the old version, the first poll
+// installs the file's - and an updater created in between follows, like any other.
+
+type FileUpdCase struct {
+	CacheVer int    `json:"cache_ver"`
+	FileVer  int    `json:"file_ver"`
+	Val      []byte `json:"val"`
+	Updaters int    `json:"updaters"`
+}
+
+func runC15File(t *testing.T, c FileUpdCase) (*h.Violation, h.Info) {
+	var info h.Info
+	dir := h.Scratch(t)
+	defer os.RemoveAll(dir)
+	fileVal := append([]byte("file:"), c.Val...)
+	cacheVal := append([]byte("cache:"), c.Val...)
+	p := filepath.Join(dir, "secrets.json")
+	os.WriteFile(p, model.EncodeCache(model.CacheDoc{"w": {Version: uint32(c.FileVer), Value: fileVal}}), 0o600)
+	fc, err := setec.NewFileClient(p)
+	if err != nil {
+		return h.V("harness", "NewFileClient: %v", err), info
+	}
+	cache := fake.NewCache(model.EncodeCache(model.CacheDoc{"w": {Version: uint32(c.CacheVer), Value: cacheVal, LastAccess: 1700000000}}))
+	st, err := setec.NewStore(context.Background(), setec.StoreConfig{Client: fc, Secrets: []string{"w"}, Cache: cache, PollInterval: -1, Logf: nolog})
+	if err != nil {
+		return h.V("harness", "NewStore: %v", err), info
+	}
+	defer st.Close()
+	var ups []*setec.Updater[string]
+	for i := 0; i < c.Updaters; i++ {
+		u, err := setec.NewUpdater(context.Background(), st, "w", func(b []byte) (string, error) { return string(b), nil })
+		if err != nil {
+			return h.V("harness", "NewUpdater: %v", err), info
+		}
+		if got := u.Get(); got != string(cacheVal) {
+			return h.V("get-returns-newest-installed", "a new updater over a store started from its cache yields %q, the cache supplied %q", got, cacheVal), info
+		}
+		ups = append(ups, u)
+	}
+	if err := st.Refresh(context.Background()); err != nil {
+		return h.V("harness", "Refresh: %v", err), info
+	}
+	newest := string(st.Secret("w").Get())
+	info.NonTrivial = newest != string(cacheVal)
+	if info.NonTrivial {
+		info.Class("the-poll-installed-the-files-version")
+	}
+	for i, u := range ups {
+		if got := u.Get(); got != newest {
+			return h.V("get-returns-newest-installed", "store over a file-backed client, cache had version %d, the file has %d: after the poll the store's handle yields %q, updater %d still yields %q", c.CacheVer, c.FileVer, newest, i, got), info
+		}
+	}
+	return nil, info
+}
+
+var c15file = &h.Campaign[FileUpdCase]{
+	Prop: "C15", Sub: "over-the-file-client",
+	Rule:  "rapid: a store over setec.FileClient with a cache that holds another version (older, newer or the same) of the one declared secret than the file; 1-3 updaters are created before the first poll; after Refresh every updater yields a value built from the bytes the store's handle returns; non-trivial = the poll installed the file's version; distinct by scenario",
+	Quick: 200, Thorough: 20000,
+	Gen: func(rt *rapid.T) FileUpdCase {
+		return FileUpdCase{CacheVer: rapid.IntRange(1, 4).Draw(rt, "cachever"), FileVer: rapid.IntRange(1, 4).Draw(rt, "filever"),
+			Val: rapid.SliceOfN(rapid.Byte(), 1, 8).Draw(rt, "val"), Updaters: rapid.IntRange(1, 3).Draw(rt, "updaters")}
+	},
+	Run: runC15File,
+}
+
+func init() { c15file.Register() }
+
+func TestC15OverTheFileClient(t *testing.T) { c15file.Check(t) }
